@@ -7,8 +7,14 @@ require (
 	github.com/datastax/go-cassandra-native-protocol v0.0.0
 	github.com/pierrec/lz4/v4 v4.0.3
 	github.com/rs/zerolog v1.20.0
+	github.com/stretchr/testify v1.7.0
 )
 
-require github.com/golang/snappy v0.0.3 // indirect
+require (
+	github.com/davecgh/go-spew v1.1.1 // indirect
+	github.com/golang/snappy v0.0.3 // indirect
+	github.com/pmezard/go-difflib v1.0.0 // indirect
+	gopkg.in/yaml.v3 v3.0.0-20200313102051-9f266ea9e77c // indirect
+)
 
 replace github.com/datastax/go-cassandra-native-protocol => /repo
